@@ -4,7 +4,7 @@ import json, subprocess
 from plans import PLANS, LEVEL
 
 HOOK_COMMITS = ["6653079"]
-FIX_COMMITS = ["3f74f98", "e572c24", "f6fe648", "21e053f"]
+FIX_COMMITS = ["3f74f98", "e572c24", "f6fe648", "21e053f", "a0d3ecc"]
 
 TEXT = {
     "C01": ("exploration", "DESIGN.md §3 C01",
@@ -61,6 +61,15 @@ TEXT.update({
     "C16": ("exploration", "DESIGN.md §3 C16",
             "Tree programs (up to 6 nodes, depth 3) register children under Bcast<0>, Bcast<1> or (); the effects log which child was registered where, so the oracle can demand that a child without outside handles never begins stopped() before its parent released it, stops gracefully after the parent's task ended (recursively), that children held outside keep running, and that each broadcast is handled exactly once per registration by children of that type and by nobody else.",
             "parent/child liveness monitor + exactly-once broadcast oracle"),
+})
+
+TEXT.update({
+    "C08": ("exploration", "DESIGN.md §3 C08",
+            "Every registry operation is recorded at the client boundary with begin/return stamps and its observed result; instance identity comes from the object uid in the reply of a call on the returned address; instance terminations enter the history as events. A memoised Wing-Gong search decides whether the per-type history has a linearization in a 40-line sequential model (lookup returns the registered live instance or spawns exactly one fresh default instance inside its own interval; register succeeds iff no live entry; replace/unregister return the previous entry; try_from_registry Some only for a registered live instance; already_running None/Some(false)/Some(true)), and that every default-spawned instance is accounted for by exactly one lookup.",
+            "linearizability checking of recorded histories against an executable sequential model"),
+    "C09": ("exploration", "DESIGN.md §3 C09",
+            "Publications carry unique ids, so topic-handler events identify the publication they deliver. From begin/return stamps of subscribe/unsubscribe/publish (and a broker ping as fan-out barrier) the oracle derives for each (publication, subscriber) pair whether exactly one, zero, or at most one delivery is required, and checks that the union of all subscribers' delivery sequences and all publishers' own orders is acyclic (witness: the cycle).",
+            "exactly-once / never / precedence-graph-acyclicity oracle over delivery events"),
 })
 
 NOT_YET = "check not built yet in this revision (planned, see DESIGN.md §3)"
